@@ -42,7 +42,8 @@ _ALGOS = ["DYNAMOSA", "DYNAMOSA", "MOSA", "MIO", "WHOLE_SUITE"]
 def gen_case(run_seed: int, tier: str) -> dict:
     st = Streams(run_seed)
     r, k, f = st.get("ops"), st.get("knobs"), st.get("faults")
-    case = gen_base_case(run_seed, r, k, algorithms=_ALGOS)
+    case = gen_base_case(run_seed, r, k, algorithms=_ALGOS,
+                         modules=["tiny", "words", "shapes", "floats", "zoo", "plain", "nested", "nested"])
     kn = case["knobs"]
     kn["iterations"] = k.choice([3, 5, 8, 12])
     kn["assertions"] = "NONE"
@@ -75,6 +76,7 @@ class RecordingDict(dict):
 class ArchiveMonitor(Monitor):
     def __init__(self):
         self.prev_covered = None
+        self.prev_public = None
         self.checked = set()
         self.replacements = 0
         self.new_goals_after_first = 0
@@ -141,6 +143,26 @@ class ArchiveMonitor(Monitor):
             unc = set(a.uncovered_goals)
             if cur & unc:
                 run.violate("covered-and-uncovered", f"goals both covered and uncovered: {sorted(map(str, cur & unc))[:3]}")
+            # the views the algorithms and the exporter read must tell the same story as the map
+            pub = set(a.covered_goals)
+            if pub != cur:
+                run.violate("covered_goals-view-differs",
+                            f"covered_goals reports {len(pub)} goals, the archive map holds {len(cur)}; only in the map: "
+                            f"{sorted(map(str, cur - pub))[:3]}; only in the view: {sorted(map(str, pub - cur))[:3]}")
+            if self.prev_public is not None and self.prev_public - pub:
+                run.violate("covered-goal-lost:view", f"covered_goals no longer lists {sorted(map(str, self.prev_public - pub))[:3]}")
+            self.prev_public = pub
+            try:
+                sols = list(a.solutions)
+            except AssertionError:
+                sols = None
+                run.violate("archive-solutions-assert", "archive.solutions asserted")
+            if sols is not None:
+                for goal in cur:
+                    if not any(s_.get_is_covered(goal) for s_ in sols):
+                        run.violate("solutions-view-misses-covered-goal",
+                                    f"{goal} is covered, but no test case in archive.solutions ({len(sols)} tests) covers it")
+                        break
             for goal, sol in covered.items():
                 if not sol.get_is_covered(goal):
                     run.violate("archived-not-covering-cached", f"{goal}: archived solution reports get_is_covered=False")
